@@ -47,8 +47,8 @@ PI = z3.Real("pi")
 PI_ZERO = z3.RealVal(1)
 PI_AXIOMS = [PI > z3.RealVal("3.14159265358979"), PI < z3.RealVal("3.14159265358980")]
 _PI_MULTIPLES = {}
-for _num in range(-8, 9):
-    for _den in (1, 2, 3, 4, 6, 8):
+for _num in range(-16, 17):
+    for _den in (1, 2, 3, 4, 5, 6, 7, 8, 10, 12):
         if _num:
             _PI_MULTIPLES[float(_num * math.pi / _den)] = Fraction(_num, _den)
             _PI_MULTIPLES[float(_num / (math.pi * _den))] = ("inv", Fraction(_num, _den))
@@ -60,8 +60,8 @@ for _a in range(1, 37):
         _q = Fraction(_a, _b)
         _PI2_MULTIPLES.setdefault(float(_q.numerator * math.pi * math.pi / _q.denominator), _q)
         _PI2_MULTIPLES.setdefault(float(((math.pi * _q.numerator) / _q.denominator) * math.pi), _q)
-for _k in range(0, 7):
-    for _n in range(1, 7):
+for _k in range(0, 9):
+    for _n in range(1, 9):
         for _d in (1.0, 2.0, 0.5, 4.0, 0.25):
             _v = float((math.pi * _k / _n / _d) ** 2)
             if _v:
